@@ -66,6 +66,10 @@ def row_harmonic(rnd, hmc=False, single_composite=False, large_dt=False):
     c = [L / 2] * 3
     g = random.Random(rnd.randint(0, 2**31))
     numbers = [rnd.choice([1, 8, 18, 29]) for _ in range(N)]
+    if large_dt:
+        # one species, so that EVERY particle is integrated close to the stability limit and a substantial share of
+        # the trajectories is rejected (a single light atom among heavy ones leaves the acceptance high)
+        numbers = [numbers[0]] * N
     pos = [[c[j] + g.gauss(0, sigma) for j in range(3)] for _ in range(N)]
     atoms = {"numbers": numbers, "positions": pos, "cell": cell, "pbc": True, "arrays": {}, "constraints": []}
     sc = {"row": "harmonic_hmc" if hmc else "harmonic", "proposal": prop,
@@ -85,7 +89,7 @@ def row_harmonic(rnd, hmc=False, single_composite=False, large_dt=False):
         # accepted): what a rejected trajectory leaves behind only matters in the latter regime (seeded C01-4)
         # (the divisor is kept off the integers: a trajectory of exactly k half periods returns the lightest particle to
         #  +- its starting point, a non-ergodic proposal that says nothing about the package)
-        sc["moves"] = [{"name": "hmc", "move": {"type": "hmc", "dt": round(period_fs / (rnd.choice([4, 5, 6] if large_dt else [4, 5, 6, 8, 12, 30]) + 0.37), 5),
+        sc["moves"] = [{"name": "hmc", "move": {"type": "hmc", "dt": round(period_fs / (rnd.choice([3.2, 3.4, 3.7] if large_dt else [3.4, 4.37, 5.37, 8.37, 12.37, 30.37])), 5),
                                                 "nsteps": rnd.randint(3, 10)}}]
         sc["params"]["max_cycles"] = 1
     elif prop in ("Ball", "Box", "Sphere", "Translation"):
